@@ -632,14 +632,11 @@ class EncodeCatRows(Filter[Iterable[Union[Any,Dense,Sparse]], Iterable[Union[Any
         if not catkeys:
             yield from rows
         else:
-            #cat_cols is list of numbers or list of lists
-            is_nums = isinstance(catkeys[0],int)
+            #catkeys holds keys (a categorical at this level) and [key,keys] pairs (categoricals further down)
             for row in rows:
                 row = list(row) if isinstance(row,tuple) else copy(row)
 
-                if is_nums:
-                    catset(row,catkeys)
-                else:
-                    for k in catkeys: catset(row,k)
+                for k in catkeys:
+                    catset(row, k if isinstance(k,list) else [k])
 
                 yield row
